@@ -339,3 +339,4 @@ def run(ctx):
     ctx.run(d3_dispatch)
     from rules import C09
     ctx.run(C09.d1_sync_gain, rule_id="D4")
+    ctx.run(C09.d_analog_layout, rule_id="D4b")
